@@ -17,7 +17,7 @@ pub fn spec() -> Spec {
     Spec {
         prop: "C07",
         level: "exploration",
-        rule: "Independent ledger model written from the controller/token Solidity source (per exact ticker bytes: balances, allowances incl. 'spender == owner => unlimited' and the controller as intermediate spender, checked total supply, zero-address rules); the RPC methods lower-case the ticker, user calls use exact bytes. Every operation's success is predicted and compared with the receipt status; after every block brc20_balance, token.balanceOf, token.totalSupply and controller.getTickerAddress are compared with the model for every (pkscript/signer, ticker), and sum(balances) = supply = deposits - withdrawals. Operations: deposits, withdrawals (sufficient/exact/insufficient/unknown ticker), controller transfer/approve/transferFrom, direct token calls, adversarial mint/burn/ownership calls from inscriptions, signed transactions, a forwarder contract and eth_call as the indexer address; reorgs roll the model back. Ticker classes: ASCII, non-ASCII capitals, one byte, empty, longer than 32 bytes, four tickers that differ only by surrounding (ASCII / ideographic) white space, a ticker ending in a capital sigma (context-sensitive lower-casing) and its neighbour ending in the medial form. Holders have pkscripts of four shapes (34, 22, 2 and 81 bytes) written in lower, upper and mixed-case hex; amounts include 0, 1, 2^64-1..2^64+8, 2^128-1, 2^128, 2^255, 2^256-2, 2^256-1. Non-trivial = operation whose predicted outcome depended on a non-zero balance or allowance; distinct by (op kind, predicted outcome, ticker class).",
+        rule: "Independent ledger model written from the controller/token Solidity source (per exact ticker bytes: balances, allowances incl. 'spender == owner => unlimited' and the controller as intermediate spender, checked total supply, zero-address rules); the RPC methods lower-case the ticker, user calls use exact bytes. Every operation's success is predicted and compared with the receipt status; after every block brc20_balance, token.balanceOf, token.totalSupply and controller.getTickerAddress are compared with the model for every (pkscript/signer, ticker), and sum(balances) = supply = deposits - withdrawals. Operations: deposits, withdrawals (sufficient/exact/insufficient/unknown ticker), controller transfer/approve/transferFrom, direct token calls, adversarial mint/burn/ownership calls from inscriptions, signed transactions, a forwarder contract and eth_call as the indexer address; reorgs roll the model back. Ticker classes: ASCII, non-ASCII capitals, one byte, empty, longer than 32 bytes, four tickers that differ only by surrounding (ASCII / ideographic) white space, a ticker ending in a capital sigma (context-sensitive lower-casing) and its neighbour ending in the medial form. Holders have pkscripts of five shapes (34, 22, 2, 81 and 20 bytes - one of the 20-byte scripts spells the indexer's address) written in lower, upper and mixed-case hex; amounts include 0, 1, 2^64-1..2^64+8, 2^128-1, 2^128, 2^255, 2^256-2, 2^256-1. Non-trivial = operation whose predicted outcome depended on a non-zero balance or allowance; distinct by (op kind, predicted outcome, ticker class).",
         assumptions: vec!["the model is derived from the Solidity source shipped in the repository, not from the deployed bytecode".into()],
         exhaustive: false,
         min_nontrivial: 2,
@@ -317,6 +317,10 @@ fn one_case(ctx: &WorkerCtx, rep: &mut WorkerReport, case_seed: u64) {
         format!("0014{}", hex::encode([0xcdu8; 20])),
         "6afe".to_string(),
         format!("4c4f{}", hex::encode((0..79u8).map(|i| i.wrapping_mul(37) ^ 0xab).collect::<Vec<u8>>())),
+        // scripts of exactly 20 bytes look like EVM addresses but are scripts like any other: one spells
+        // the indexer account (owner of the controller), one is arbitrary
+        "0000000000000000000000000000000000003ca6".to_string(),
+        hex::encode([0x5au8; 20]),
     ];
     let h = crate::hist::bh((0xc07u64) as u64);
     let r = d.exec(Op::Deploy { pk: pks[0].clone(), data: hist::hx(&asm::batcher_init()), enc: Enc::Hex, ctx: Ctx { ts: 2, hash: h.clone(), idx: 0 }, iid: format!("c07-batcher-{}", case_seed), len: 100_000, txid: hist::ZERO_HASH.into() });
@@ -341,9 +345,9 @@ fn one_case(ctx: &WorkerCtx, rep: &mut WorkerReport, case_seed: u64) {
             let weights: Vec<u64> = classes.iter().map(|c| match c.name { "ascii" => 6, "non-ascii" => 3, "one-byte" | "ws-plain" | "ws-padded-right" | "final-sigma" => 2, _ => 1 }).collect();
             let c = &classes[rng.weighted(&weights)];
             let who = match rng.below(8) {
-                0 | 1 | 2 | 3 => Who::Pk(rng.below(4) as usize),
+                0 | 1 | 2 | 3 => Who::Pk(rng.below(6) as usize),
                 4 | 5 => Who::Signer(rng.below(2) as usize),
-                _ => Who::Relay(rng.below(4) as usize),
+                _ => Who::Relay(rng.below(6) as usize),
             };
             let me = run.addr_of(&who);
             let other: A = match rng.below(6) {
@@ -351,9 +355,9 @@ fn one_case(ctx: &WorkerCtx, rep: &mut WorkerReport, case_seed: u64) {
                 1 => me,
                 2 => ctl,
                 3 => run.signers[rng.below(2) as usize].addr,
-                _ => hist::pk_address(&run.pks[rng.below(4) as usize]),
+                _ => hist::pk_address(&run.pks[rng.below(6) as usize]),
             };
-            let third: A = hist::pk_address(&run.pks[rng.below(4) as usize]);
+            let third: A = hist::pk_address(&run.pks[rng.below(6) as usize]);
             let tok_bal = run.ledger.tokens.get(&c.key).map(|t| t.balance(&me)).unwrap_or(U256::ZERO);
             let v = match rng.below(8) {
                 0 => tok_bal,
@@ -369,7 +373,7 @@ fn one_case(ctx: &WorkerCtx, rep: &mut WorkerReport, case_seed: u64) {
             match rng.weighted(&[12, 7, 7, 6, 5, 4, 3, 3, 6, 2]) {
                 0 => {
                     kind = "deposit";
-                    let pk = rng.below(4) as usize;
+                    let pk = rng.below(6) as usize;
                     let sp = *rng.pick(&c.spellings);
                     let amt = if rng.chance(1, 8) { v } else { U256::from(rng.range(1, 5000)) };
                     let mut l = run.ledger.clone();
@@ -383,7 +387,7 @@ fn one_case(ctx: &WorkerCtx, rep: &mut WorkerReport, case_seed: u64) {
                 }
                 1 => {
                     kind = "withdraw";
-                    let pk = rng.below(4) as usize;
+                    let pk = rng.below(6) as usize;
                     let a = hist::pk_address(&run.pks[pk]);
                     let bal = run.ledger.tokens.get(&c.key).map(|t| t.balance(&a)).unwrap_or(U256::ZERO);
                     let amt = match rng.below(4) {
